@@ -272,6 +272,7 @@ func runCheck(o checkOpts) int {
 		vres := w.vacuityChecks(reports, o)
 		vacN = vres.n
 		vacuous = vres.bad
+		uncoveredAntecedents = vres.uncovered
 	}
 
 	known := loadKnownFindings(filepath.Join(o.verif, "known_findings.txt"))
@@ -347,8 +348,9 @@ func (w *World) reachableFromRoundTrip() map[string]bool {
 // ---- vacuity ---------------------------------------------------------------------------------
 
 type vacResult struct {
-	n   int
-	bad []string
+	n         int
+	bad       []string
+	uncovered []string // ensures-antecedents that hold at no return (thorough tier, informational)
 }
 
 func (w *World) vacuityChecks(reports []*funcReport, o checkOpts) vacResult {
@@ -410,7 +412,84 @@ func (w *World) vacuityChecks(reports []*funcReport, o checkOpts) vacResult {
 	}
 	wg.Wait()
 	sort.Strings(res.bad)
+	// covers (thorough tier): an `ensures A ==> B` whose antecedent A can hold at no return of the
+	// function proves nothing; such clauses are listed (informational: an error branch that a
+	// function never takes is a legitimate reason).
+	if o.tier == "thorough" {
+		type key struct{ fn, clause string }
+		covered := map[key]bool{}
+		seen := map[key]bool{}
+		var cmu sync.Mutex
+		var cwg sync.WaitGroup
+		for _, r := range reports {
+			for _, ob := range r.Obls {
+				if ob.Kind != "post" || (o.prop != "" && !containsStr(ob.Props, o.prop)) {
+					continue
+				}
+				k := key{r.Key, ob.Clause}
+				if !strings.HasPrefix(ob.goal.S, "(=> ") {
+					// at this return the antecedent folded to true (or the clause is no implication)
+					cmu.Lock()
+					covered[k] = true
+					cmu.Unlock()
+					continue
+				}
+				ante := firstSexp(ob.goal.S[4:])
+				if ante == "" {
+					continue
+				}
+				seen[k] = true
+				cwg.Add(1)
+				go func(ob *Obligation, k key, ante string) {
+					defer cwg.Done()
+					sem <- struct{}{}
+					defer func() { <-sem }()
+					q := ob.enc.queryF(ob.seq, []string{"(assert " + ob.reach.S + ")", "(assert " + ante + ")"}, nil, true, ob.keep)
+					sr := vacSolve("cover-"+ob.Name, q, 5)
+					cmu.Lock()
+					if sr.Status != "unsat" {
+						covered[k] = true
+					}
+					cmu.Unlock()
+				}(ob, k, ante)
+			}
+		}
+		cwg.Wait()
+		for k := range seen {
+			if !covered[k] {
+				res.uncovered = append(res.uncovered, shortKey(k.fn)+": antecedent of `"+k.clause+"` holds at no return")
+			}
+		}
+		sort.Strings(res.uncovered)
+	}
 	return res
+}
+
+// firstSexp returns the first s-expression (or atom) of s.
+func firstSexp(s string) string {
+	s = strings.TrimLeft(s, " ")
+	if s == "" {
+		return ""
+	}
+	if s[0] != '(' {
+		if i := strings.IndexAny(s, " )"); i > 0 {
+			return s[:i]
+		}
+		return s
+	}
+	depth := 0
+	for i := 0; i < len(s); i++ {
+		switch s[i] {
+		case '(':
+			depth++
+		case ')':
+			depth--
+			if depth == 0 {
+				return s[:i+1]
+			}
+		}
+	}
+	return ""
 }
 
 // ---- known findings ----------------------------------------------------------------------------
@@ -450,6 +529,8 @@ type oblJSON struct {
 	Solver  string  `json:"solver,omitempty"`
 	Seconds float64 `json:"seconds"`
 }
+
+var uncoveredAntecedents []string
 
 func report(o checkOpts, w *World, reports []*funcReport, obls []*Obligation, undecided, vacuous []string, vacN int, known []knownFinding, wall time.Duration, reach map[string]bool) int {
 	exit := 0
@@ -613,6 +694,7 @@ func report(o checkOpts, w *World, reports []*funcReport, obls []*Obligation, un
 		"vacuous_contexts":         vacuous,
 		"generator_notes":          notes,
 		"bounded_standins":         standins,
+		"antecedents_never_true":   append([]string{}, uncoveredAntecedents...),
 	}
 	if uncovered != nil {
 		cov["reachable_functions_without_contract"] = uncovered
